@@ -219,7 +219,7 @@ def restart_head(ctx, rid="C02.R8"):
         e2 = dict(env)
         # (the worker has forced the connection to close: the Connection line does not depend on the request)
         e2.update({"self.req.version": (1, 1), "self.req.method": "GET", "self.version": "gunicorn/0", "self.must_close": True})
-        outs = Explorer(f_sh, tracked=tracked, atom_of=atom_of, inline_depth=3).run(f_sh.cfg.entry, e2, probes={node.id: ("head", lambda ex_, env_: ex_.ev(call.args[1], env_))})
+        outs = Explorer(f_sh, tracked=tracked, atom_of=atom_of, inline_depth=3, bind_defaults=True).run(f_sh.cfg.entry, e2, probes={node.id: ("head", lambda ex_, env_: ex_.ev(call.args[1], env_))})
         for o in outs:
             for k, v in o.events:
                 if k == "head":
@@ -241,50 +241,101 @@ def restart_head(ctx, rid="C02.R8"):
 STATUS_CLASS = {100: "1xx", 101: "1xx", 199: "1xx", 200: "other", 204: "204", 304: "304", 404: "other", 500: "other"}
 
 
+def _wire(trace):
+    """bytes on the wire for an ordered trace of socket writes [(target, (data, chunked))], or None when undetermined
+    (util.write(.., chunked=True) frames the data as one chunk: size line in hex, data, CRLF -- C02.R3 checks that writer)"""
+    out = b""
+    for q, v in trace:
+        if v == "U" or not isinstance(v, tuple) or not isinstance(v[0], (bytes, bytearray)) or not isinstance(v[1], bool):
+            return None
+        data, ch = bytes(v[0]), v[1]
+        out += (b"%X\r\n" % len(data) + data + b"\r\n") if ch else data
+    return out
+
+
 def write_table(ctx, rid):
-    """Response.write evaluated over (Content-Length, bytes sent, len(arg), chunked): bytes put on the wire, the
-    chunk flag, and the byte accounting (`self.sent`) that the access log reports"""
+    """Response.write evaluated over (Content-Length, bytes sent so far, len(arg), chunked, head already sent or not): the exact
+    bytes that leave through the socket -- whichever method of Response writes them (send_headers is entered, so a head that
+    is coalesced with the first chunk is still the same bytes) --, and the byte accounting (`self.sent`) the access log reports"""
     repo = ctx.repo
     f_w = ctx.fn(repo.func(RESP + ".write"))
-    K_CL, K_CH = "self.response_length", "self.chunked"
-    sends_w = _send_calls(repo, f_w)
-    ctx.need(sends_w, "%s: no socket send found in Response.write" % rid)
-    # ---- write() table: never exceed Content-Length, skip empty chunks, account bytes
-    K_SENT = "self.sent"
+    f_sh = repo.func(RESP + ".send_headers")
+    K_CL, K_CH, K_SENT, K_HS = "self.response_length", "self.chunked", "self.sent", "self.headers_sent"
     ARG = f_w.params[1]
+    cls = repo.cls(RESP)
+    attrs = sorted(set("self." + t.attr for fm in cls.methods.values() for x in walk_own(fm.node) if isinstance(x, (ast.Assign, ast.AugAssign))
+                       for t in (x.targets if isinstance(x, ast.Assign) else [x.target]) if isinstance(t, ast.Attribute) and isinstance(t.value, ast.Name) and t.value.id == "self"))
+    f_init = repo.func(RESP + ".__init__")
+    p_ = f_init.params
+    base = {}
+    for o in Explorer(f_init, tracked=attrs).run(f_init.cfg.entry, {p_[1]: UNKNOWN, p_[2]: UNKNOWN, p_[3]: UNKNOWN}):
+        if o.kind == "return":
+            base = dict((k, v) for k, v in o.env.items() if k.startswith("self.") and v is not UNKNOWN)
+            break
+
+    def atom_of(e):
+        if isinstance(e, ast.Call) and (e.func.attr if isinstance(e.func, ast.Attribute) else getattr(e.func, "id", "")) == "http_date":
+            return "DATE"
+        return None
+
+    def traced_write(ex, c, env):
+        d = ex.ev(c.args[1], env) if len(c.args) > 1 else UNKNOWN
+        chv = ex.ev(_chunk_arg(c), env)
+        return (bytes(d) if isinstance(d, (bytes, bytearray)) else d, chv) if d is not UNKNOWN and chv is not UNKNOWN else UNKNOWN
+
+    def traced_sendall(ex, c, env):
+        d = ex.ev(c.args[0], env) if c.args else UNKNOWN
+        return (d, False) if d is not UNKNOWN else UNKNOWN
+    traces = {UTIL + ".write": traced_write, UTIL + ".write_nonblock": traced_write}
+    enter = lambda q: q.startswith(RESP + ".") and q != RESP + ".write"
+
+    def run(fn, env):
+        ex = Explorer(fn, atom_of=atom_of, tracked=attrs + [ARG], enter=enter, call_trace=traces, inline_depth=3, max_states=100000, bind_defaults=True)
+        return ex.run(fn.cfg.entry, env)
     wrows = []
-    for rl in (None, 0, 5, 10):
-        for sent in (0, 3, 5, 10, 12):
-            for n in (0, 1, 5, 20):
-                for ch in (False, True):
-                    if ch and rl is not None:
-                        continue
-                    payload = bytes(range(65, 65 + n))
-                    probes = {}
-                    for c, node in [(c, nd) for c in sends_w for nd in nodes_with(f_w, c)]:
-                        probes[node.id] = ("sent-bytes", (lambda ex, env, c=c: (ex.ev(_payload_arg(c), env), ex.ev(_chunk_arg(c), env))))
-                    ex = Explorer(f_w, atom_of=call_atom(repo, f_w), tracked=[K_SENT, ARG])
-                    outs = ex.run(f_w.cfg.entry, {K_CL: rl, K_SENT: sent, ARG: payload, K_CH: ch}, probes=probes)
-                    allowed = n if rl is None else min(n, max(rl - sent, 0))
-                    for o in outs:
-                        if o.kind != "return":
+    n_rows = 0
+    for hs in (True, False):
+        for rl in (None, 0, 5, 10):
+            for sent in (0, 3, 5, 10, 12):
+                for n in (0, 1, 5, 20):
+                    for ch in (False, True):
+                        if ch and rl is not None:
                             continue
-                        sends = [e[1] for e in o.events if isinstance(e, tuple) and e[0] == "sent-bytes"]
-                        got = b"".join(x[0] for x in sends if isinstance(x, tuple) and isinstance(x[0], bytes)) if all(isinstance(x, tuple) and isinstance(x[0], bytes) for x in sends) else None
-                        flags = [x[1] for x in sends if isinstance(x, tuple)]
-                        after = o.env.get(K_SENT)
-                        okk = got is not None and got == payload[:allowed] and (not sends or not (ch and len(got) == 0)) and after == sent + allowed \
-                            and all(fl == ch for fl in flags)
-                        wrows.append({"content_length": rl, "sent_before": sent, "len(arg)": n, "chunked": ch, "bytes_sent": None if got is None else len(got),
-                                      "sent_after": after if after is not UNKNOWN else "U", "required_bytes": allowed})
-                        why = "Response.write with Content-Length=%s, sent=%s, len(arg)=%s, chunked=%s puts %s bytes on the wire (required %s), sent becomes %s, chunk flag %s" % (
-                            rl, sent, n, ch, None if got is None else len(got), allowed, after, flags)
-                        if ch and allowed == 0 and sends:
-                            why += " -- an empty chunk would terminate the response prematurely"
-                        ctx.check(rid, okk, key(f_w, "write|cl=%s|sent=%s|n=%s|ch=%s" % (rl, sent, n, ch)),
-                                  site(f_w, text="write(len=%s) cl=%s sent=%s chunked=%s" % (n, rl, sent, ch)), why, "writes %s bytes" % allowed)
-    ctx.table(rid + " Response.write rows (sample)", wrows[:30])
-    ctx.count("write rows", len(wrows))
+                        if not hs and sent:
+                            continue                      # nothing can have been sent before the head
+                        payload = bytes(range(65, 65 + n))
+                        env = dict(base)
+                        env.update({K_CL: rl, K_SENT: sent, ARG: payload, K_CH: ch, K_HS: hs, "self.status": "200 OK", "self.req.version": (1, 1), "self.req.method": "GET",
+                                    "self.version": "gunicorn/0", "self.must_close": True, "self.upgrade": False, "self.headers": (("X-A", "b"),), "DATE": "<date>"})
+                        head = b""
+                        if not hs:
+                            hs_outs = [o for o in run(f_sh, dict(env)) if o.kind == "return"]
+                            heads = set(_wire(o.env.get(Explorer.TRACE, ())) for o in hs_outs)
+                            ctx.need(len(heads) == 1 and None not in heads and heads != {b""}, "%s: the head written by send_headers is not determined" % rid)
+                            head = heads.pop()
+                        allowed = n if rl is None else min(n, max(rl - sent, 0))
+                        body = payload[:allowed]
+                        want = head + ((b"%X\r\n" % len(body) + body + b"\r\n") if (ch and allowed) else (b"" if ch else body))
+                        for o in run(f_w, env):
+                            if o.kind != "return":
+                                continue
+                            n_rows += 1
+                            got = _wire(o.env.get(Explorer.TRACE, ()))
+                            after = o.env.get(K_SENT)
+                            okk = got is not None and got == want and after == sent + allowed and o.env.get(K_HS) is True
+                            if len(wrows) < 30 or not okk:
+                                wrows.append({"head_sent_before": hs, "content_length": rl, "sent_before": sent, "len(arg)": n, "chunked": ch, "wire_bytes": None if got is None else len(got),
+                                              "body_bytes_required": allowed, "sent_after": after if after is not UNKNOWN else "U"})
+                            why = "Response.write with Content-Length=%s, sent=%s, len(arg)=%s, chunked=%s, head %s puts %s on the wire, required %s (head + %s body bytes%s); sent becomes %s (required %s)" % (
+                                rl, sent, n, ch, "already sent" if hs else "not yet sent", ("%d bytes %r" % (len(got), got[-40:])) if got is not None else "undetermined bytes", "%d bytes" % len(want),
+                                allowed, ", one chunk" if ch and allowed else "", after, sent + allowed)
+                            if ch and allowed == 0 and got is not None and got != want:
+                                why += " -- an empty chunk would terminate the response prematurely"
+                            ctx.check(rid, okk, key(f_w, "write|hs=%s|cl=%s|sent=%s|n=%s|ch=%s" % (hs, rl, sent, n, ch)),
+                                      site(f_w, text="write(len=%s) cl=%s sent=%s chunked=%s head_sent=%s" % (n, rl, sent, ch, hs)), why, "writes head + %s body bytes" % allowed)
+    ctx.table(rid + " Response.write rows (sample)", wrows[:40])
+    ctx.count("write rows", n_rows)
+    ctx.floor(rid, "Response.write rows evaluated", n_rows, 60)
 
 
 def r1(ctx):
